@@ -207,6 +207,7 @@ def run(tier, seed, build, res):
         return c03.glued(c, d, allt, set(d.accented))
     universe.run(g, res, 'parser', project, glue_oracle)
     after_construct_stream(rng, res, tier)
+    repl_layout_stream(res)
     theorem_stream(res)
 
 
@@ -238,6 +239,45 @@ def theorem_stream(res):
     universe.run(cases, res, 'theorem', project, oracle)
 
 
+def repl_layout_stream(res):
+    """a replacement list does not move paragraph breaks: the words of a
+    phrase may be separated by blanks and one line break, a blank line between
+    them (also one that holds blanks) is a paragraph break and stays"""
+    seps = [' ', '  ', '\t', '\n', ' \n ', '\n\n', '\n \n', '\n\t\n', ' \n \n ', '\n\n\n',
+            '\n  \n\n', ' % c\n', '\n% c\n', '\n% c\n\n', '\n\n  ']
+    cases = []
+    for sep in seps:
+        for repl in (['so dass & sodass'], ['so dass & so dass dass'], ['so & x', 'dass & y'], None):
+            for lead in ('Wone ', 'Wone\n\n'):
+                tex = lead + 'so' + sep + 'dass Wtwo end.\n'
+                cases.append((parsecase.T2T(tex, lang='de', pack='*', repl=repl), None, 'repl-layout'))
+    sepof = {c.latex: re.search(r'so(.*)dass Wtwo', c.latex, re.S).group(1) for c, _, _ in cases}
+
+    def oracle(c, d, kind, im):
+        if im[0] != 'OK':
+            return None
+        t = im[1][1]
+        a, b = t.find('Wone'), t.find('Wtwo')
+        if a < 0 or b < 0:
+            return 'words lost: %r' % t
+        k = t.find('Wone') + 4
+        lead_par = c.latex.startswith('Wone\n\n')
+        # the break behind Wone (if any) belongs to the lead, not to the phrase
+        mid = t[k:b]
+        if lead_par:
+            mid = re.sub(r'^\s*\n\s*\n\s*', '', mid, count=1)
+        want = tex_reference(sepof[c.latex]) == 'par'
+        got = re.search(r'\n[ \t]*\n', mid) is not None
+        if want and not got:
+            return ('blank line between the words of the phrase in the source %r, the output '
+                    '%r has no paragraph break there' % (sepof[c.latex], t))
+        if got and not want:
+            return ('no blank line in the source %r, the output %r has a paragraph break'
+                    % (sepof[c.latex], t))
+        return None
+    universe.run(cases, res, 'repl-layout', project, oracle)
+
+
 def after_construct_stream(rng, res, tier):
     """a word that follows a construct behind white space is not glued to the
     text the construct generates: every macro of the catalogue (its arguments
@@ -246,18 +286,29 @@ def after_construct_stream(rng, res, tier):
     calls = []
     for name, (args, dcls) in macs:
         if name in universe.CAT_SKIP or 'A' not in args or name in (
-                '\\LTinput', '\\usepackage', '\\documentclass', '\\begin', '\\end'):
+                '\\LTinput', '\\usepackage', '\\documentclass', '\\begin', '\\end',
+                '\\substack'):        # \substack: valid in maths only
             continue
         a = ''.join('{german}' if name in ('\\foreignlanguage', '\\selectlanguage')
                     else '{ma}' for code in args if code == 'A')
+        if name == '\\foreignlanguage':
+            a = '{german}{ma}'
         calls.append(('', name + a, dcls))
+        # the last argument ends with a control word: the blank behind the
+        # closing brace is not its to skip
+        if a.endswith('{ma}'):
+            for cw in ('\\LaTeX', '\\dots'):
+                calls.append(('', name + a[:-1] + ' ' + cw + '}', dcls))
     pre = '\\usepackage{glossaries}\\LTinput{main.glsdefs}\n'
     for m in ('\\gls', '\\Gls', '\\glspl', '\\GLS', '\\glsdesc', '\\glstext', '\\Glspl',
               '\\glsentrytext', '\\acrshort', '\\acrlong'):
         for lab in ('pp', 'ex'):
             calls.append((pre, m + '{' + lab + '}', ''))
     if tier == 'quick':
-        calls = calls[-20:] + rng.sample(calls[:-20], 40)
+        often = [x for x in calls[:-20] if x[1].split('{')[0] in (
+            '\\foreignlanguage', '\\textbf', '\\emph', '\\section', '\\footnote', '\\mbox',
+            '\\textcolor', '\\caption', '\\item', '\\href', '\\text')]
+        calls = calls[-20:] + often + rng.sample(calls[:-20], 40)
     cases = []
     for pre_, call, dcls in calls:
         for sep in (' ', '\n', ' % c\n', '  '):
